@@ -319,7 +319,7 @@ void ezc3d::c3d::unlockGroup(const std::string &groupName)
 void ezc3d::c3d::frame(const ezc3d::DataNS::Frame &f, size_t idx)
 {
     // Make sure f.points().points() is the same as data.f[ANY].points()
-    size_t nPoints(static_cast<size_t>(parameters().group("POINT").parameter("USED").valuesAsInt()[0]));
+    size_t nPoints(static_cast<size_t>(parameters().group("POINT").parameter("USED").valuesAsInt().at(0)));
     if (nPoints != 0 && f.points().nbPoints() != nPoints)
         throw std::runtime_error("Number of points in POINT:USED parameter must equal"
                                  "the number of points sent in the frame");
@@ -332,7 +332,7 @@ void ezc3d::c3d::frame(const ezc3d::DataNS::Frame &f, size_t idx)
             throw std::invalid_argument("All the points in the frame must appear in the POINT:LABELS parameter");
         }
 
-    if (f.points().nbPoints() > 0 && static_cast<double>(parameters().group("POINT").parameter("RATE").valuesAsFloat()[0]) == 0.0){
+    if (f.points().nbPoints() > 0 && static_cast<double>(parameters().group("POINT").parameter("RATE").valuesAsFloat().at(0)) == 0.0){
         throw std::runtime_error("Point frame rate must be specified if you add some");
     }
     // The ANALOG group should always hold its parameters, but we have to take in account Optotrak lazyness
@@ -340,11 +340,11 @@ void ezc3d::c3d::frame(const ezc3d::DataNS::Frame &f, size_t idx)
     size_t subSize(f.analogs().nbSubframes());
     bool skipAnalogParameters(parameters().group("ANALOG").nbParameters() == 0
                               && (subSize == 0 || f.analogs().subframe(0).nbChannels() == 0));
-    if (!skipAnalogParameters && subSize > 0 && static_cast<double>(parameters().group("ANALOG").parameter("RATE").valuesAsFloat()[0]) == 0.0){
+    if (!skipAnalogParameters && subSize > 0 && static_cast<double>(parameters().group("ANALOG").parameter("RATE").valuesAsFloat().at(0)) == 0.0){
         throw std::runtime_error("Analog frame rate must be specified if you add some");
     }
 
-    size_t nAnalogs(skipAnalogParameters ? 0 : static_cast<size_t>(parameters().group("ANALOG").parameter("USED").valuesAsInt()[0]));
+    size_t nAnalogs(skipAnalogParameters ? 0 : static_cast<size_t>(parameters().group("ANALOG").parameter("USED").valuesAsInt().at(0)));
     if (subSize != 0){
         size_t nChannel(f.analogs().subframe(0).nbChannels());
         size_t nAnalogByFrames(header().nbAnalogByFrame());
@@ -550,7 +550,7 @@ void ezc3d::c3d::updateParameters(const std::vector<std::string> &newPoints, con
     // If frames has been added
     ezc3d::ParametersNS::GroupNS::Group& grpPoint(_parameters->group_nonConst(parameters().groupIdx("POINT")));
     size_t nFrames(data().nbFrames());
-    if (nFrames != static_cast<size_t>(grpPoint.parameter("FRAMES").valuesAsInt()[0])){
+    if (nFrames != static_cast<size_t>(grpPoint.parameter("FRAMES").valuesAsInt().at(0))){
         size_t idx(grpPoint.parameterIdx("FRAMES"));
         grpPoint.parameter_nonConst(idx).set(nFrames);
     }
@@ -562,7 +562,7 @@ void ezc3d::c3d::updateParameters(const std::vector<std::string> &newPoints, con
         nPoints = data().frame(filled).points().nbPoints();
     else
         nPoints = parameters().group("POINT").parameter("LABELS").valuesAsString().size() + newPoints.size();
-    if (nPoints != static_cast<size_t>(grpPoint.parameter("USED").valuesAsInt()[0])){
+    if (nPoints != static_cast<size_t>(grpPoint.parameter("USED").valuesAsInt().at(0))){
         addParameterIfAbsent(grpPoint, "LABELS", ezc3d::DATA_TYPE::CHAR);
         addParameterIfAbsent(grpPoint, "DESCRIPTIONS", ezc3d::DATA_TYPE::CHAR);
         addParameterIfAbsent(grpPoint, "UNITS", ezc3d::DATA_TYPE::CHAR);
@@ -608,7 +608,7 @@ void ezc3d::c3d::updateParameters(const std::vector<std::string> &newPoints, con
             nAnalogs = 0;
     } else
         nAnalogs = parameters().group("ANALOG").parameter("LABELS").valuesAsString().size() + newAnalogs.size();
-    if (nAnalogs != static_cast<size_t>(grpAnalog.parameter("USED").valuesAsInt()[0])){
+    if (nAnalogs != static_cast<size_t>(grpAnalog.parameter("USED").valuesAsInt().at(0))){
         addParameterIfAbsent(grpAnalog, "LABELS", ezc3d::DATA_TYPE::CHAR);
         addParameterIfAbsent(grpAnalog, "DESCRIPTIONS", ezc3d::DATA_TYPE::CHAR);
         addParameterIfAbsent(grpAnalog, "SCALE", ezc3d::DATA_TYPE::FLOAT);
